@@ -26,6 +26,18 @@ CHECKS["C20"] = dict(
     technique="deterministic simulation: simulated thread pool + simulated cpu_count + rescaled thread heuristic + injected worker failures; NumPy reference oracle",
 )
 
+CHECKS["C03"] = dict(
+    text="Seeded search over logical datasets, operations, execution strategies (chunking threshold, rows per thread, key chunks, simulated cpu_count, pool "
+    "workers, pyarrow chunk layouts of keys and values), schedules of the simulated thread pool (two independent schedules per strategy) and injected worker "
+    "failures. Relational oracle: a fresh GroupBy under the explored strategy must give the same outcome as under the baseline strategy (whole factorization, "
+    "one thread, contiguous inputs); a faulted call must raise or return the baseline value. A real-scale arm exercises the unmodified 1,000,000-row literals. "
+    "Sampling: a clean batch is evidence, not proof.",
+    note="Trusts the baseline strategy as reference (a defect identical under every strategy is invisible by design), task atomicity, NUMBA_BOUNDSCHECK=1, "
+    "the canonical comparison of gbsim/compare.py (index dtype and integer width ignored; float sums within a derived bound).",
+    design="4.1",
+    technique="deterministic simulation: simulated thread pool and machine, rescaled strategy literals, seeded schedules, injected worker/spawn failures; relational strategy-vs-baseline and schedule-vs-schedule oracles",
+)
+
 NOT_APPLICABLE = {}
 
 def main():
